@@ -345,6 +345,10 @@ def run_rules(rep, repo):
         carrying = [c for c in calls if c[2] and c[2][-1] == ('rep', (('var', rest),))]
         mention = [c for c in calls if any(x == ('rep', (('var', rest),)) for x in c[2])]
         ok = len(carrying) == 1 and len(mention) == 1 and bool(calls) and calls[-1] is carrying[0]
+        if not calls and any(x == ('var', rest) for x in flatten_all(r['t'])):
+            # a terminal helper (`(@datetime $($dt:tt)*) => { ..concat!($(stringify!($dt)),+).. }`): the tokens are consumed here, nothing is left to forward
+            rep.ok(R6, f'@{r["state"]}#{idx}|rest', f'terminal rule: $(${rest})* is consumed by the transcriber', f'{file}:{r["line"]}')
+            continue
         rep.check(R6, f'@{r["state"]}#{idx}|rest', ok, f'continues with $(${rest})*',
                   f'the rule at line {r["line"]} matches `$(${rest}:tt)*` but ' + ('does not pass it on to the continuation' if not carrying else 'passes it on more than once or not last') +
                   ': everything after this construct is silently dropped (or duplicated)', f'{file}:{r["line"]}')
